@@ -54,7 +54,7 @@ Fixpoint first_nonzero (l : list Z) : Z :=
 
 Definition class_code (c : option c01class) : Z :=
   match c with
-  | None => 0 | Some CDupLastResult => 2 | Some CNoBoundary => 3      (* 1 = single_554, retired *)
+  | None => 0 | Some CDupLastResult => 2      (* 1 = single_554, 3 = noboundary: retired *)
   end.
 
 Definition clk_obs : nat -> Z := fun _ => 0.
